@@ -22,10 +22,8 @@ verus! {
 //@field-type mutators VfMutators
 #[verifier::external_body]
 pub struct VfMutators { inner: usize }
-#[verifier::external_body]
-pub struct VfSnapshot { inner: usize }
-impl VfSnapshot { pub uninterp spec fn output_len(&self) -> nat; }
 pub struct VfError { pub code: u8 }
+//@item src/mutators/mod.rs struct EmissionSnapshot
 } // verus!
 
 //@include contracts/shim.rs
